@@ -10,6 +10,11 @@ CHECKS = {
    text="Every message of a size-diverse bounded family (<=k records per section, EDNS/TSIG/TC on/off) is encoded under EVERY limit 12..len+2 by the real encoder, and the real server path (Catalog -> MessageResponse::encode) is driven for RRsets of 1..N records x advertised payloads x UDP/TCP; each output is judged by an independent RFC 1035 walker (length, no leftover bytes, counts, section prefixes, TC). Exhaustive within the stated alphabet and bounds, no sampling.",
    note="Trusted: vref::wire walker; record alphabet (7 shapes) and <=3 records per section bound the message space; values outside are not covered.",
    design="6/C03"),
+ "C16": dict(level="model_checking", engine="E-SCHED+E-STATE",
+   technique="exhaustive enumeration of datagram arrival schedules (all sequences up to length 4/5 over 16 datagram kinds x socket generations, under virtual time) and explicit-state BFS over multiplexer event interleavings on the real code, against a reference acceptance predicate / routing table",
+   text="(a) the real UdpClientStream over a scripted socket under the paused tokio clock: every sequence of <=4 (quick) / <=5 (thorough) forged/genuine datagrams incl. late replies to earlier sockets and tie cases; (b) the real DnsMultiplexer polled manually: BFS with state matching over send/deliver/duplicate/unknown-id/undecodable/cancel/timer/error/end/poll events for <=3 requests to depth 9/12. Every schedule/transition is executed on the implementation and judged by a reference acceptance predicate computed from raw bytes and a reference routing table.",
+   note="Trusted: vref::wire, the scripted socket/stream and hand-fired timers faithfully stand in for the OS; event-level (not thread-level) schedules; ids are those observed on the wire.",
+   design="6/C16, 11"),
 }
 
 NOT_BUILT_REASON = "check not built yet at this commit (design in DESIGN.md section 6); not claimed until its quick tier runs clean"
